@@ -725,6 +725,7 @@ func main() {
 		seed := fs.Uint64("seed", 1, "seed")
 		only := fs.Int("only", 0, "case")
 		modeFlag := fs.String("mode", "", "mode override")
+		full := fs.Bool("trace", false, "execute the case and print its whole trace")
 		fs.Parse(os.Args[2:])
 		ps := props[*prop]
 		if ps == nil {
@@ -735,6 +736,23 @@ func main() {
 			mn = *modeFlag
 		}
 		c := caseFor(modes[mn], *seed, *only, *tier)
+		if c != nil && *full {
+			quietLogs()
+			keep := make([]int, c.N)
+			for i := range keep {
+				keep[i] = i
+			}
+			t, err := c.Run(keep)
+			if t != nil {
+				for _, l := range t.Lines {
+					fmt.Println(l)
+				}
+			}
+			if err != nil {
+				fmt.Println("# error:", err)
+			}
+			os.Exit(0)
+		}
 		if c != nil && c.Inputs != nil {
 			for _, l := range c.Inputs() {
 				fmt.Println(l)
